@@ -49,13 +49,19 @@ def gen_cases(tier, seed):
         for w in (1, 2):
             extra.append({'carrier': 'servlet', 'n': n, 'size': 100, 'workers': w, 'parent_level': 'DEBUG'})
         extra.append({'carrier': 'pool', 'n': n, 'size': 100, 'parent_level': 'DEBUG'})
+    # whole parent programs that end right after join()/result(): nothing may be left to a logger thread that dies with the interpreter
+    for acc in ('join', 'result', 'result-timeout'):
+        for daemon in (True, False):
+            for ending in (('return',) if tier == 'quick' else ('return', 'raise', 'exit')):
+                extra.append({'carrier': 'parent-program', 'n': 150 if tier == 'quick' else 400, 'size': 60, 'ending': ending, 'accessor': acc, 'daemon': daemon,
+                              'handler_delay': 0.003, 'parent_level': 'DEBUG'})
     if tier == 'quick':
         rng.shuffle(cases)
         lv = [c for c in cases if c.get('named_logger_level') or c.get('handler_level')]
         cases = [c for c in cases if c not in lv]
         big = [c for c in cases if c['n'] >= 2000][:14]
         small = [c for c in cases if c['n'] < 2000][:46]
-        cases = big + small + extra[:6] + lv
+        cases = big + small + extra[:6] + [c for c in extra if c['carrier'] == 'parent-program'] + lv
     else:
         cases = cases + extra
     rng.shuffle(cases)
@@ -178,6 +184,39 @@ def run_case(case):
             for w in range(case['workers']):
                 seq = [(0, int(g[3])) for g in got if int(g[2]) == w]
                 judge_sequence(viol, [(0, i) for i in range(case['n'])], seq, False, f'worker {w} cleanup burst of {case["n"]}')
+        elif case['carrier'] == 'parent-program':
+            # a whole parent program that waits with join()/result() and then ends at once; its (slow) handler appends to a file
+            import json
+            import os
+            import subprocess
+            import sys
+            import tempfile
+
+            spec = {'n': case['n'], 'size': case['size'], 'ending': case['ending'], 'levels': False, 'threads': 1}
+            tmp = tempfile.mkdtemp(prefix='vf-c20-')
+            outp = os.path.join(tmp, 'handled.log')
+            cfg = {'out': outp, 'spec': spec, 'accessor': case['accessor'], 'daemon': case['daemon'], 'handler_delay': case['handler_delay']}
+            try:
+                pr = subprocess.run([sys.executable, '-m', 'vlib.targets', 'c20-parent', json.dumps(cfg)], timeout=BOUND + case['n'] * case['handler_delay'] * 3,
+                                    capture_output=True, text=True, env=dict(os.environ))
+                rc = pr.returncode
+            except subprocess.TimeoutExpired:
+                viol.append({'mech': 'logging/parent-program-never-ends', 'msg': f'a parent program that waits with {case["accessor"]}() for a child logging {case["n"]} records did not end'})
+                return {'violations': viol, 'obs': obs, 'exit_after': True, 'nontrivial': True, 'sig': repr(sorted(case.items()))}
+            lines = open(outp).read().splitlines() if os.path.exists(outp) else []
+            import shutil
+
+            shutil.rmtree(tmp, ignore_errors=True)
+            outcome = [ln for ln in lines if ln.startswith('OUTCOME')]
+            if not outcome:
+                return {'violations': viol, 'obs': obs, 'inconclusive': f'parent program gave no outcome (rc {rc}): {pr.stderr[-300:]}', 'exit_after': True}
+            got = [tuple(int(v) for v in ln.split()[2:4]) for ln in lines if ln.startswith('vf.child rec')]
+            obs['records_expected'] = case['n']
+            obs['records_handled'] = len(got)
+            obs['end_of_life_records'] = 1
+            obs['parent_programs'] = 1
+            judge_sequence(viol, [(0, i) for i in range(case['n'])], got, False,
+                           f'parent program ({case["accessor"]}(), daemon={case["daemon"]}, handler {case["handler_delay"] * 1000:.0f} ms/record) ending right after the wait; child logged {case["n"]}')
         else:  # pool
             from mpservice.concurrent.futures import ProcessPoolExecutor
 
@@ -206,7 +245,7 @@ def run_case(case):
         for h in old_handlers:
             root.addHandler(h)
         root.setLevel(old_level)
-    nontrivial = case['n'] >= 300 or case.get('pause') == 0
+    nontrivial = case['n'] >= 300 or case.get('pause') == 0 or case['carrier'] == 'parent-program'
     return {'violations': viol[:4], 'obs': obs, 'nontrivial': nontrivial, 'sig': repr(sorted(case.items())), 'exit_after': True,
             'sample': dict(case, handled=obs['records_handled'], expected=obs['records_expected'], seconds=round(time.monotonic() - t0, 2))}
 
